@@ -389,3 +389,47 @@ Proof.
   intros C H parts I. pose proof (entry_run_checks _ _ _ _ _ _ _ H parts I) as X.
   destruct e; try discriminate C; exact X.
 Qed.
+
+(* ---------- object histories: the header checked is the merge of the CURRENT fields ---------- *)
+Lemma history_checks pre step verify post d c o es :
+  encrypt_json_history pre step verify post d c o es = Ok tt ->
+  forall parts, In parts (obj_members (final_state o es)) ->
+    run_spec (RJwe d) c false (merge_parts parts) = true.
+Proof.
+  unfold encrypt_json_history, encrypt_json_obj. intros H parts I.
+  exact (entry_run_checks _ _ _ _ (JweEncryptJson d) _ _ H parts I).
+Qed.
+
+Lemma history_final_only pre step verify post d c o1 es1 o2 es2 :
+  final_state o1 es1 = final_state o2 es2 ->
+  encrypt_json_history pre step verify post d c o1 es1 =
+  encrypt_json_history pre step verify post d c o2 es2.
+Proof. unfold encrypt_json_history. intro E. rewrite E. reflexivity. Qed.
+
+Lemma history_is_fresh pre step verify post d c o es :
+  encrypt_json_history pre step verify post d c o es =
+  encrypt_json_obj pre step verify post d c (final_state o es).
+Proof. reflexivity. Qed.
+
+Lemma history_rejects pre step verify post d c o es parts :
+  In parts (obj_members (final_state o es)) ->
+  run_spec (RJwe d) c false (merge_parts parts) = false ->
+  exists x, encrypt_json_history pre step verify post d c o es = Err x.
+Proof.
+  intros I S. unfold encrypt_json_history, encrypt_json_obj.
+  exact (entry_run_rejects _ _ _ _ (JweEncryptJson d) _ _ parts I S).
+Qed.
+
+Lemma ex_history :
+  let c := default_cfg (RJwe false) in
+  let o := {| o_protected := [(asc "enc", PStr (asc "A128GCM"))]; o_unprotected := None;
+              o_recipients := [Some [(asc "alg", PStr (asc "A128KW"))]] |} in
+  let run := encrypt_json_history (Ok tt) (fun _ => Ok tt) (Ok true) (Ok tt) false c o in
+  run [] = Ok tt /\
+  run [ESetP (asc "bogus") (PInt 1)] = Err EValue /\
+  run [ESetR 0 (asc "kid") (PInt 123)] = Err EValue /\
+  run [ERebindU (Some [(asc "crit", PList [PStr (asc "kid")])])] = Err EValue /\
+  run [ERebindU (Some [(asc "crit", PList [PStr (asc "kid")])]); EAddHeader 0 (asc "kid") (PStr (asc "k"))] = Ok tt /\
+  run [ESetP (asc "bogus") (PInt 1); EDelP (asc "bogus")] = Ok tt /\
+  run [EAddRecipient false (Some [(asc "alg", PInt 1)])] = Err EValue.
+Proof. vm_compute. repeat split; reflexivity. Qed.
